@@ -29,8 +29,8 @@ def skipInterim : Nat → Bytes → Option (Spec.Resp.Msg × Bytes)
     let (m, rest) ← Spec.Resp.decodeOne false s
     if 100 ≤ m.status && m.status < 200 && m.status != 101 then skipInterim fuel rest else pure (m, rest)
 
-/-- `s` begins with interim responses other than ONE `100 Continue`: hertz's `ReadHeaders` takes the first head that is
-not that one `100` for the final response (known finding `interim-1xx-taken-as-final`) -/
+/-- `s` begins with interim responses other than ONE `100 Continue` (tag only: before `/repo` 8ec4dd8 hertz's
+`ReadHeaders` took the first head that is not that one `100` for the final response; repaired, so a return is a violation) -/
 def hardInterim (s : Bytes) : Bool :=
   match Spec.Resp.decodeOne false s with
   | some (m, rest) =>
@@ -385,7 +385,7 @@ def seqHandle (flags : String) (maxBody n : Nat) (rest impl : List String) : Opt
       else if o == .badPool && i.res == ["err:badpool"] then (true, "pooled connection closed by the peer, request not repeatable")
       else specCheck (isHead || wanted') e maxBody s.resp (if i.res.headD "" == "ok" then i.res ++ ["0"] else i.res)
     let spec' := spec && rr.spec && sok
-    let cls' := if !sok && hardInterim s.resp && cls'.isEmpty then "interim-1xx-taken-as-final" else cls'
+    let cls' := if !sok && hardInterim s.resp && cls'.isEmpty then "" else cls'
     let note' := if !note.isEmpty then note else if !rr.spec then "request: " ++ rr.specNote else if !sok then "response: " ++ snote else ""
     let t := (s.reuse.take 1).toString ++ (if o.isOk then "k" else (outcomeTokens o).headD "?") ++ (if prevFailed then "!" else "") ++
              (if st.idle.isSome && st'.dials == st.dials then "r" else "d")
@@ -410,12 +410,12 @@ def handle : Handler
     let skip := flags.contains 'h'
     let (sok, snote) := specCheck skip e maxBody.toNat! s impl
     match readResponseSkip skip (flags.contains 'n') maxBody.toNat! e s with
-    | .error x => pure { out := [errTok x], spec := sok, specNote := snote, cls := if !sok && hardInterim s then "interim-1xx-taken-as-final" else "",
+    | .error x => pure { out := [errTok x], spec := sok, specNote := snote, cls := if !sok && hardInterim s then "" else "",
                          tag := "respread:" ++ errTok x ++ (if endK == "stall" then "S" else "E") }
     | .ok r =>
       let hd := r.head
       pure { out := respTokens r ++ [toString r.rest.length],
-             spec := sok, specNote := snote, cls := if !sok && hardInterim s then "interim-1xx-taken-as-final" else "",
+             spec := sok, specNote := snote, cls := if !sok && hardInterim s then "" else "",
              tag := (if hardInterim s then "interim:" else "") ++ (if snote.startsWith "status" then "wf:" else "") ++ (if skip then "head:" else "") ++ "respread:ok:" ++ toString (if hd.cl < 0 then hd.cl else 0) ++ sizeClass r.body.length ++ boolTok hd.connClose ++
                     boolTok (!r.trailers.isEmpty) ++ boolTok (mustSkipCL hd.status) ++ sizeClass hd.h.length }
   | "reqwrite" :: proxy :: script, impl => reqWriteHandle (expectedTarget (proxy == "1") script) script impl
